@@ -606,28 +606,34 @@ pub fn extract(src: &str) -> Result<Extracted, String> {
         fp.push(' ');
     }
 
-    // --- pop_and_reduce: rule kind -> reduce function name
+    // --- pop_and_reduce: rule kind -> reduction code (a call of a reduce function, or an inline block)
     let (_, prb, pre) = p.find_fn("pop_and_reduce").ok_or("fn pop_and_reduce not found")?;
-    let mut reduce_names: Vec<Option<String>> = vec![None; rule_variants.len()];
+    let mut bodies: Vec<Option<(String, usize, usize)>> = vec![None; rule_variants.len()];
     let mut j = prb;
     while j + 6 < pre {
         if t[j].is_ident(&names.rule_kind_enum) && t[j + 1].is(':') && t[j + 2].is(':') && t[j + 4].is('=') && t[j + 5].is('>') {
             let v = t[j + 3].ident().ok_or("rule kind arm")?;
             let idx = variant_index(&rule_variants, v, "rule kind")?;
-            let f = t[j + 6].ident().ok_or("reduce fn name")?;
-            if idx >= reduce_names.len() {
+            if idx >= bodies.len() {
                 return Err("rule kind index out of range".into());
             }
-            reduce_names[idx] = Some(f.to_string());
-            j += 7;
+            if t[j + 6].is('{') {
+                let e = p.skip_group(j + 6)?;
+                bodies[idx] = Some((format!("inline arm {v}"), j + 6, e));
+                j = e;
+            } else {
+                let f = t[j + 6].ident().ok_or("reduce fn name")?;
+                let (_, b, e) = p.find_fn(f).ok_or(format!("fn {f} not found"))?;
+                bodies[idx] = Some((f.to_string(), b, e));
+                j += 7;
+            }
         } else {
             j += 1;
         }
     }
     let mut reduce = vec![];
-    for (k, nm) in reduce_names.iter().enumerate() {
-        let nm = nm.clone().ok_or(format!("no reduce function for rule kind {k}"))?;
-        let (_, b, e) = p.find_fn(&nm).ok_or(format!("fn {nm} not found"))?;
+    for (k, body) in bodies.iter().enumerate() {
+        let (nm, b, e) = body.clone().ok_or(format!("no reduction code for rule kind {k}"))?;
         let mut pops = 0;
         let mut truncate = 0;
         let mut constructor = vec![];
@@ -662,7 +668,7 @@ pub fn extract(src: &str) -> Result<Extracted, String> {
             j += 1;
         }
         if constructor.is_empty() || kind.is_empty() {
-            return Err(format!("reduce function {nm}: constructor or kind not found"));
+            return Err(format!("reduction code {nm}: constructor or kind not found"));
         }
         reduce.push(ReduceFn { name: nm, pops, truncate, constructor, node_variant, kind });
     }
